@@ -107,6 +107,48 @@ scenario Main():
         wait
 '''
 
+NESTED_OVERRIDE = '''
+import verif_probe as probe
+behavior Own():
+    while True:
+        take probe.Act("own")
+behavior OuterB():
+    while True:
+        take probe.Act("outer")
+behavior InnerB():
+    while True:
+        take probe.Act("inner")
+scenario Inner():
+    setup:
+        probe.ev("Inner.setup")
+        override ego with foo 3, with behavior InnerB()
+    compose:
+        while True:
+            probe.ev("Inner.compose")
+            wait
+scenario Outer():
+    setup:
+        probe.ev("Outer.setup")
+        override ego with foo 2, with behavior OuterB()
+    compose:
+        probe.ev("Outer.compose")
+        wait
+        do Inner()
+scenario Main():
+    setup:
+        probe.ev("Main.setup")
+        ego = new Object at (0, 0, 0), with name "A1", with foo 1, with behavior Own(), with allowCollisions True
+        record ego.foo as fb
+        terminate after 7 steps
+    compose:
+        probe.ev("Main.compose")
+        wait
+        do Outer() for 3 steps
+        wait
+        wait
+        wait
+'''
+
 NESTED = '''
 import verif_probe as probe
 behavior Inner():
@@ -139,6 +181,7 @@ PROGRAMS = [
     dict(name="flat", text=FLAT, tables={"c1": [False, True, False], "tw": [False], "foo": [3]}, maxSteps=6, scenario=None),
     dict(name="modular", text=MODULAR, tables={"thingfoo": [1], "bgts": [False], "bgtw": [False]}, maxSteps=8, scenario="Main", override=("fb", 0, (3, 4))),
     dict(name="flat2d", text=FLAT.replace("(Range(8, 12), 0, 0)", "(Range(8, 12), 0)").replace("at (0, 0, 0)", "at (0, 0)"), tables={"c1": [False, True, False], "tw": [False], "foo": [3]}, maxSteps=6, scenario=None, mode2D=True),
+    dict(name="nested-override", text=NESTED_OVERRIDE, tables={}, maxSteps=9, scenario="Main", override=("fb", 0, (4, 5, 6)), actions_after=(4, "own")),
     dict(name="nested", text=NESTED, tables={"c2": [False, False, True, False], "stop": [False], "ts": [False] * 5 + [True]}, maxSteps=7, scenario=None),
 ]
 
@@ -418,6 +461,14 @@ def override_check(prog, ref):
             return ("override-not-undone", f"record {name}: value {series[t]} at step {t} (after the overriding scenario ended), {series[base_step]} before it: {recs}")
     if all(series.get(t) == series[base_step] for t in series):
         raise HarnessError("override never visible")
+    if prog.get("actions_after"):
+        t0, want = prog["actions_after"]
+        import re as _re
+
+        acts = _re.findall(r"\((\d+), 'apply:A1:(\w+)'\)", repr(ref["sim"][1]))
+        wrong = [(int(t), a) for t, a in acts if int(t) >= t0 and a != want]
+        if wrong:
+            return ("override-not-undone", f"after the overriding scenarios ended (step {t0} on) the agent must run its own behavior again ('{want}'), observed actions {wrong[:4]}")
     return None
 
 
